@@ -22,7 +22,7 @@ TRUSTED = [
   'Kahn model (Model/Kahn.lean) with an arbitrary tie-break oracle stands for SimpleSchedulePass/HeuristicTopoPass.schedule_intra_cycle',
 ]
 ASSUMPTIONS = [
-  'PARTIAL: method-constraint propagation (GenDAGPass._process_methods) and OpenLoopCLPass are not modelled; method ordering is exercised only by the C17/C18 behavioural checks',
+  'PARTIAL: method-constraint propagation (GenDAGPass._process_methods) and OpenLoopCLPass are not modelled; method ordering is exercised by a run-time call-order probe on the CL queues (pipe: deq before enq, bypass: enq before deq, both textual orders) and by the C17/C18 behavioural checks',
   'struct fields are not generated here (bit ranges via slices only); nested-field footprints are covered by the theorem about ranges',
 ]
 RULE = ('C01 designs plus designs decorated with explicit U<U constraints (ordering, inversion of an implicit pair, pure explicit 2-cycles); '
@@ -140,12 +140,68 @@ def process_explicit(ck, d, kind, info):
                    {'schedule': order, 'calls': calls, 'violated': bad + bad2, 'explicit': d.explicit,
                     'oracle': 'explicit U<U constraints are honoured; an explicit constraint inverts the implicit pair'})
 
+CL_SRC = '''from pymtl3 import *
+from pymtl3.stdlib.queues.cl_queues import PipeQueueCL, BypassQueueCL, NormalQueueCL
+class ClTop{uid}( Component ):
+  def construct( s ):
+    s.q = {Q}( {n} )
+    s.cnt = 0
+    s.got = []
+{blocks}
+'''
+CL_BLK_SRC = '''    @update_once
+    def up_src():
+      if s.q.enq.rdy():
+        s.q.enq( s.cnt ); s.cnt += 1
+'''
+CL_BLK_SNK = '''    @update_once
+    def up_snk():
+      if s.q.deq.rdy():
+        s.got.append( s.q.deq() )
+'''
+
+def method_constraint_probe(ck):
+  """explicit METHOD ordering constraints (M(x) < M(y)) of the CL queues are honoured by the scheduler whatever the
+  textual order of the calling blocks: pipe = deq before enq, bypass = enq before deq (clause covered by correspondence
+  only: _process_methods is not modelled)"""
+  import importlib.util, os
+  from pymtl3.passes.PassGroups import DefaultPassGroup
+  for Q, first in [('PipeQueueCL', 'deq'), ('BypassQueueCL', 'enq')]:
+    for n in (1, 2, 3):
+      for swap in (0, 1):
+        uid = next(rtlgen._uid)
+        blocks = (CL_BLK_SNK + CL_BLK_SRC) if swap else (CL_BLK_SRC + CL_BLK_SNK)
+        src = CL_SRC.format(uid=uid, Q=Q, n=n, blocks=blocks)
+        path = os.path.join(ck.workdir, f'pvcl_{os.getpid()}_{uid}.py')
+        with open(path, 'w') as f: f.write(src)
+        spec = importlib.util.spec_from_file_location(f'pvcl_{uid}', path); mod = importlib.util.module_from_spec(spec)
+        sys.modules[f'pvcl_{uid}'] = mod; spec.loader.exec_module(mod)
+        top = getattr(mod, f'ClTop{uid}')(); top.elaborate(); top.apply(DefaultPassGroup())
+        calls = []
+        def prof(frame, event, arg):
+          if event == 'call' and frame.f_code.co_name in ('enq', 'deq') and 'cl_queues' in frame.f_code.co_filename:
+            calls.append(frame.f_code.co_name)
+        bad = None
+        for cyc in range(8):
+          del calls[:]
+          sys.setprofile(prof)
+          try: top.sim_tick()
+          finally: sys.setprofile(None)
+          if 'enq' in calls and 'deq' in calls and calls.index(first) != 0:
+            bad = (cyc, list(calls)); break
+        ck.count({'cl': Q, 'n': n, 'swap': swap}, True); ck.hist('method_probe', Q)
+        if bad or top.got != list(range(len(top.got))):
+          ck.violation('method-constraint-order', {'queue': Q}, {'source': src},
+                       {'cycle_calls': bad, 'received': top.got,
+                        'oracle': f'{Q}: every cycle the {first} call precedes the other; messages arrive in order'})
+
 def run(ck):
   rng = ck.rng
+  method_constraint_probe(ck)
   n = 40 if ck.tier == 'quick' else 600
   lines, meta = [], []
   for _ in range(n):
-    d = rtlgen.generate(rng, max_blocks=8)
+    d = rtlgen.generate_slices(rng) if rng.random() < 0.3 else rtlgen.generate(rng, max_blocks=8)
     process_plain(ck, d, lines, meta)
   replies = ck.drv('rtl').batch(lines)
   for (kind, d, x, src, y), rep in zip(meta, replies):
